@@ -1162,9 +1162,15 @@ func (c *Context) Exp(d, x *Decimal) (Condition, error) {
 	// subject to the caller's exponent range and traps.
 	nc := BaseContext.WithPrecision(cp)
 	nc.Rounding = RoundHalfEven
+	p := int64(cp) + int64(t) + 2
+	// The series is evaluated with p digits and r is the dividend of each of
+	// its steps: digits beyond the guard digits only cost time.
+	if r.NumDigits() > p+3 {
+		nc.Precision = uint32(p + 3)
+		res |= nc.round(&r, &r)
+	}
 	var ra Decimal
 	ra.Abs(&r)
-	p := int64(cp) + int64(t) + 2
 
 	// Stage 3
 	rf, err := ra.Float64()
